@@ -19,7 +19,8 @@ UNITS = [
     U("layout", "h_layout"),
     U("spec_anchor", "h_spec_anchor", reach=["spec_anchor.return"], cbmc=["--unwind", "130"], srcs=["harness/sha256_anchor.c"], no_native=True),
     U("Transform", "h_transform", (TRANSFORM, "c_Transform"), reach=["transform.return"],
-      loops="contracts/sha256_transform.loops.json", min_obligations=30, solver="cadical", cost=1000, defs=["NV_TABLES_ROWWISE"]),
+      loops="contracts/sha256_transform.loops.json", min_obligations=30, solver="cadical", cost=1000, defs=["NV_TABLES_ROWWISE"],
+      split=[r"loop_invariant", r"loop_decreases", r"precondition", r"postcondition"]),
     U("WriteByteBlock", "h_wbb", (WBB, "c_WriteByteBlock"), replace=[(TRANSFORM, "c_Transform")], reach=["wbb.return"]),
     U("Transform.frame", "h_transform_frame", (TRANSFORM, "c_Transform_frame"), reach=["transform_frame.return"]),
     U("WriteByteBlock.frame", "h_wbb_frame", (WBB, "c_WriteByteBlock_frame"), replace=[(TRANSFORM, "c_Transform_frame")],
@@ -31,7 +32,12 @@ UNITS = [
     U("update.one_byte", "h_update_step", (UPDATE, "c_update_step"), replace=[(WBB, "c_WriteByteBlock")],
       reach=["update_step.block", "update_step.buffered"], cbmc=["--unwindset", UPDATE + "_wrapped_for_contract_checking.0:3", "--unwinding-assertions"]),
     U("finalize", "h_finalize", (FINALIZE, "c_finalize"), replace=[(WBB, "c_WriteByteBlock")],
-      reach=["finalize.two_blocks", "finalize.one_block"], loops="contracts/sha256_finalize.loops.json"),
+      reach=["finalize.two_blocks", "finalize.one_block"], loops="contracts/sha256_finalize.loops.json", cost=900,
+      exclude=[(r"^finalize\.assigns @finalize: Check that digest is assignable$",
+                "DFCC artefact: 'digest' is a local pointer variable of finalize declared after the loop that carries the "
+                "loop contract and is not registered in the write set; the check concerns the assignment digest++ to the "
+                "local itself -- the writes THROUGH it (*digest) are separate obligations and are discharged")],
+      split=[r"loop_invariant", r"loop_decreases", r"precondition", r"postcondition"]),
 ]
 TRUSTED = ["cbmc 6.11.0 / goto-instrument DFCC / minisat", "goto-cc C++ front end translation of src/Crypto/Sha256.cpp",
            "specs/fips180.h as rendering of FIPS 180-4 (anchored on two standard test vectors in unit spec_anchor)"]
